@@ -217,7 +217,7 @@ func ruleQuotaDelayDelta(c *Ctx) {
 	}
 	n := 0
 	for _, w := range p.FieldWrites(f) {
-		if w.Fn != fn || w.Arg == nil {
+		if !p.inFn(w.Fn, fn) || w.Arg == nil {
 			continue
 		}
 		call, ok := unparen(w.Arg).(*ast.CallExpr)
